@@ -1,4 +1,5 @@
 """C08 — balances lists each address once with the sum of its unspent outputs."""
+import collections
 import os
 import random
 import shutil
@@ -11,7 +12,7 @@ from ..ser import hash160
 
 RULE = ("C07 histories (all event sequences of <=3 (quick) / <=4 (thorough) events in every split, random long histories) plus "
         "balance-specific chains: few addresses with many outputs each, the same address reached through P2PK and P2PKH of one key, "
-        "addresses fully spent and re-funded, per-address sums above 2^32 and close to 2^64; x ranges x coins. Real `balances` runs: "
+        "addresses fully spent and re-funded, per-address sums above 2^32 and close to 2^64, more than 65,536 addresses; x ranges x coins. Real `balances` runs: "
         "header + one row per address, balance = model sum; and the two-run relation: the balances file must equal the per-address "
         "aggregation of the unspentcsvdump file produced from the same directory and range. "
         "distinct = (chain kind, coin, range kind) signatures")
@@ -107,7 +108,15 @@ def case(spec):
     coin = spec["coin"]
     rng = random.Random("C08|%s|%s" % (spec["seed"], spec["n"]))
     kind = spec["kind"]
-    if kind == "lanes":
+    if kind == "wide":
+        # more than 65,536 distinct addresses / outputs of one transaction, some spent later
+        cbw = gen.ChainBuilder(rng, coin)
+        cbw.add_block(n_tx=1)
+        wide = Tx(1, [TxIn(rbytes(rng, 32), 0, b"", 0xFFFFFFFF)], [TxOut(1 + i, histories.p2pkh_for(b"w%d" % (i % 65538))) for i in range(65560)], 0)
+        cbw.add_block(txs=[wide])
+        cbw.add_block(txs=[Tx(1, [TxIn(wide.txid, i, b"", 0xFFFFFFFF) for i in (0, 255, 256, 65535, 65536, 65559)], [TxOut(5, histories.p2pkh_for(b"w1"))], 0)])
+        chain = cbw.chain()
+    elif kind == "lanes":
         chain, _ = histories.lanes_chain(rng, coin, histories.all_sequences(spec["k"]), spec["split"], lane_base=spec["n"] * 10**6, many=260 if spec["k"] <= 2 else 3)
     elif kind == "random":
         chain = histories.random_history_chain(rng, coin, spec["events"], spec["blocks"], big_values=spec.get("big", False) and False)
@@ -131,7 +140,7 @@ def case(spec):
     bal = model.balances_expected(utxo)
     shutil.rmtree(work, ignore_errors=True)
     counters = {"runs": runs, "relation_checks": rels, "addresses_expected_full": len(bal),
-                "addresses_with_several_outputs": sum(1 for a in bal if sum(1 for x in utxo.values() if x[2] == a) > 1)}
+                "addresses_with_several_outputs": sum(1 for c in collections.Counter(x[2] for x in utxo.values()).values() if c > 1)}
     if any(x > (1 << 32) for x in bal.values()):
         counters["balances_above_2^32"] = sum(1 for x in bal.values() if x > (1 << 32))
     if any(x > (1 << 63) for x in bal.values()):
@@ -150,6 +159,8 @@ def plan(chk):
         for split in histories.compositions(k, 3):
             n += 1
             specs.append(dict(case="case", kind="lanes", coin=COINS3[n % 3], seed=chk.seed, n=n, k=k, split=split))
+    n += 1
+    specs.append(dict(case="case", kind="wide", coin=COINS3[chk.seed % len(COINS3)], seed=chk.seed, n=n, ranges=False))
     for i in range(400 if chk.thorough else 24):
         for kind in ("shared", "refund", "bigsum"):
             n += 1
@@ -170,7 +181,7 @@ def main():
     specs = plan(chk)
     for sp in specs:
         sp["work"] = chk.workdir
-    specs.sort(key=lambda s: -(10 ** s.get("k", 0) if s["kind"] == "lanes" else s.get("events", 0)))
+    specs.sort(key=lambda s: -(10 ** 7 if s["kind"] == "wide" else (10 ** s.get("k", 0) if s["kind"] == "lanes" else s.get("events", 0))))
     for res in core.parallel(case, specs, jobs=min(core.NPROC, 12)):
         chk.absorb(res)
     chk.finish(RULE, floor={"runs": 200, "relation_checks": 100, "balances_above_2^32": 5, "balances_above_2^63": 1, "addresses_with_several_outputs": 100},
